@@ -131,14 +131,15 @@ const (
 	hexNotD  = "0123456789ABCEabce"   // first digit of a BMP target: keeps it out of the surrogate block (D) and of F000-FFFF (a leading FEFF is read as a byte-order mark)
 	hexHigh  = "456789ABCDEFabcdef"   // first digit of a code: keeps it clear of the bfrange 30..32
 	hexNot0  = "23456789ABCDEFabcdef" // first digit of a BMP target: printable
-	hexLowOK = "0123456789ABCabc"     // last digit of a range target: +2 does not carry
+	hexLowOK = "0123456789ABCDEFabcdef" // last digit of a range target: any (+2 may carry into the next digit of the same code unit)
+	hexNotF  = "0123456789ABCDEabcde"   // a digit that keeps its code unit below 0xF000, so that +2 cannot overflow the unit
 )
 
 // H_C07_tounicode_cmap: a ToUnicode CMap rendered from a code->text map decodes codes to exactly that text.
 //
 //symgo:harness prop=C07 kernel=K3-tounicode
 //symgo:redirect github.com/tsawler/tabula/font.NormalizeUnicode vIdentityNFC
-//symgo:desc code space of 1 or 2 bytes; one bfchar <code> <target> and one bfrange <30> <32> <target> (<0030> <0032> for 2-byte codes); hex digits of the code and of both targets are symbolic bytes, either letter case (thorough: every digit; quick: the two low digits of each number, the others fixed); each target is one BMP code point (not a surrogate) or a supplementary-plane character written as a surrogate pair (enumerated kind); entries separated by newlines or by spaces only (enumerated); oracle ISO 32000-1 9.10.3: a range target increments its last code unit; ToUnicode takes precedence over the font's Encoding; NFC cut (identity)
+//symgo:desc code space of 1 or 2 bytes; one bfchar <code> <target> and one bfrange <30> <32> <target> (<0030> <0032> for 2-byte codes); hex digits of the code and of both targets are symbolic bytes, either letter case (thorough: every digit; quick: the two low digits of each number, the others fixed); each target is one BMP code point (not a surrogate) or a supplementary-plane character written as a surrogate pair (enumerated kind); entries separated by newlines or by spaces only (enumerated); oracle ISO 32000-1 9.10.3: a range target increments its last code unit (with carry inside the 16-bit unit); ToUnicode takes precedence over the font's Encoding; NFC cut (identity)
 func H_C07_tounicode_cmap() {
 	width := vAnyIntIn(1, 2)
 	nl := "\n"
@@ -155,14 +156,15 @@ func H_C07_tounicode_cmap() {
 		var r rune
 		if vAnyIntIn(0, 1) == 0 {
 			var v uint32
-			prog, v = vHex(prog, vq(hexNotD, "4"), vq(hexAny, "E"), hexNot0, last)
+			prog, v = vHex(prog, vq(hexNotD, "4"), vq(hexAny, "E"), hexAny, last)
+			vAssume(v >= 0x20)
 			r = rune(v)
 		} else {
 			var hi, lo uint32
 			prog = append(prog, 'D', '8')
 			prog, hi = vHex(prog, vq(hexAny, "3"), hexAny)
 			prog = append(prog, 'D', 'C')
-			prog, lo = vHex(prog, vq(hexAny, "0"), last)
+			prog, lo = vHex(prog, vq(hexAny, "F"), last) // quick: DCFx, so that +1/+2 carries into the high byte of the unit
 			r = rune(0x10000 + (hi << 10) + lo)
 		}
 		return append(prog, '>'), r
@@ -207,5 +209,35 @@ func H_C07_tounicode_cmap() {
 	vAssert("bfchar-target", got1 == string(utf8.AppendRune(nil, r1)))
 	got2 := f.DecodeString(enc(0x30 + k))
 	vAssert("bfrange-target-plus-offset", got2 == string(utf8.AppendRune(nil, r2+rune(k))))
+	vReach("end")
+}
+
+// H_C07_tounicode_precedence: a font with a ToUnicode CMap decodes by it even when the code string happens to start with
+// the bytes of a UTF-16 byte-order mark, and even when an Encoding is present.
+//
+//symgo:harness prop=C07 kernel=K3-tounicode-precedence
+//symgo:redirect github.com/tsawler/tabula/font.NormalizeUnicode vIdentityNFC
+//symgo:desc one-byte code space; CMap built from a program with bfchar entries for the codes FE, FF and one symbolic code c (hex digits symbolic); code string = FE FF c or FF FE c (enumerated) or c alone; Encoding WinAnsi also set: the result is the concatenation of the ToUnicode targets
+func H_C07_tounicode_precedence() {
+	prog := []byte("1 begincodespacerange\n<00> <FF>\nendcodespacerange\n3 beginbfchar\n<FE> <0058>\n<FF> <0059>\n<")
+	var c uint32
+	prog, c = vHex(prog, "01234567", hexAny)
+	prog = append(prog, "> <005A>\nendbfchar\n"...)
+	cm, err := ParseToUnicodeCMap(&core.Stream{Dict: core.Dict{}, Data: prog})
+	vAssert("cmap-parses", err == nil && cm != nil)
+	f := NewFont("F1", "Helvetica", "Type1")
+	f.Encoding = "WinAnsiEncoding"
+	f.ToUnicodeCMap = cm
+	var data []byte
+	want := ""
+	switch vAnyIntIn(0, 2) {
+	case 0:
+		data, want = []byte{0xFE, 0xFF, byte(c)}, "XYZ"
+	case 1:
+		data, want = []byte{0xFF, 0xFE, byte(c)}, "YXZ"
+	default:
+		data, want = []byte{byte(c)}, "Z"
+	}
+	vAssert("tounicode-takes-precedence", f.DecodeString(data) == want)
 	vReach("end")
 }
